@@ -114,7 +114,7 @@ CLAIMED["C04"] = (
     "to run time); `not` and container literals use the same truthiness / constructors on both sides.  This "
     "decides literal/variable transparency at the level 'both evaluators run the same function on the same "
     "operands' for all operators and all operand values; it does not decide anything about the operator functions "
-    "themselves (that is C08). Also: unary minus is ops::neg alone in the folder, the literal fast path and the interpreter; the folded comparison chain compares neighbours and stops at the first false link; every keyword argument contributes (compiled or stored) on every path of the emitting loop; a closure that evaluates an operator at compile time is never consumed by an adaptor that swallows None.",
+    "themselves (that is C08). Also: unary minus is ops::neg alone in the folder, the literal fast path and the interpreter; the folded comparison chain compares neighbours and stops at the first false link; every keyword argument contributes (compiled or stored) on every path of the emitting loop; a closure that evaluates an operator at compile time is never consumed by an adaptor that swallows None. (K9) inside as_const no value is fabricated from a Rust scalar except the negated truthiness of `not` and the truth value of a comparison chain.",
     "DESIGN.md §3 C04",
     "Keyword-argument constant handling in codegen (static kwargs) is not covered.")
 
@@ -226,7 +226,7 @@ CLAIMED["C07"] = (
     "to_bits) is only reached on the not-`==` side of a float equality test whose other side returns Equal, so the "
     "order agrees with == on -0.0/0.0.  Other laws over concrete values within one pair "
     "(transitivity, NaN, 2^53 neighbourhood) and the algebra of sort/unique/groupby/batch/slice/reverse are "
-    "value-level and NOT decided or claimed. Later additions: (V4) a vector sorted with a stable sort is never reversed afterwards in the same filter; (V5) inside equality / ordering an optional length is never compared as a value (both must be Some).",
+    "value-level and NOT decided or claimed. Later additions: (V4) a vector sorted with a stable sort is never reversed afterwards in the same filter; (V5) inside equality / ordering an optional length is never compared as a value (both must be Some); (V2) a comparator whose verdict is a constant for some pairs only is reported; (V7) the member searches of the function the In instruction calls decide by Value == Value.",
     "DESIGN.md §3 C07",
     "Known findings (true == 1 across kinds and hashes) are listed; host Object::custom_cmp implementations are outside the analysis.")
 
@@ -247,7 +247,7 @@ CLAIMED["C01"] = (
     "reviewed entry.  Interpreter recursion is decided under C11.  These are necessary "
     "conditions that realistic regressions break (a dropped guard, a new unchecked add, an unbounded capacity); "
     "absence of panics over the whole engine, VM operand-stack discipline and the stack cost of data recursion (a template can nest a list 50000 deep through a namespace attribute in a loop; dropping, printing, comparing or hashing it overflows a 2 MiB stack - confirmed, see DESIGN.md §3 C01) are "
-    "NOT decided. Later additions: (P9) slice/Vec indexing in the builtin modules is in range by construction (whole range, search results, a literal index under a dominating length test, or a reviewed entry); (P10) the interpreter's unsigned counters are only decremented after the matching increment succeeded on the same path; P3 also treats the number of call arguments as template-controlled, checks the divisor of / and %, and requires a constant bound on template-chosen iteration counts; P7 treats character columns like literals (not byte offsets).",
+    "NOT decided. Later additions: (P9) slice/Vec indexing in the builtin modules is in range by construction (whole range, search results, a literal index under a dominating length test, or a reviewed entry); (P10) the interpreter's unsigned counters are only decremented after the matching increment succeeded on the same path; P3 also treats the number of call arguments as template-controlled, checks the divisor of / and %, and requires a constant bound on template-chosen iteration counts; P7 treats character columns like literals (not byte offsets). Round 5: the taint keeps flowing through checked/saturating/wrapping results, closure captures, combinator payloads, coerced integer pairs and the loop object's counters; bounds on checked products count (path-sensitive over matches!-style booleans); (P14) every run-time width/precision handed to Rust's formatter derives from fields whose every producer is a bounded parse with constant + slack <= u16::MAX; (P9) a reviewed indexing entry that leans on a helper is valid only while the helper clamps its result below the bound.",
     "DESIGN.md §3 C01",
     "Partial claim.  The taint sources are integer parameters of the builtin modules and integer conversions of template values; arithmetic on other integers is out of scope.")
 
